@@ -53,6 +53,7 @@ func NewLunarYear(lunarYear int) *LunarYear {
 		year.ganIndex = yearGanIndex
 		year.zhiIndex = yearZhiIndex
 		year.compute()
+		verifTrace("computed", lunarYear)
 		CACHE_YEAR = year
 		verifTrace("published", lunarYear)
 	} else {
